@@ -45,8 +45,19 @@ ASSUMPTIONS = [
     "velocity vector of a PMState, from which its orientation is derived; occupancy sets of a TrajectoryPrediction cached BEFORE "
     "the motion (cache invalidation is C11's subject) - the oracle reads occupancies from a deep copy with cold caches",
     "3-D vertices (z) are outside the property (planar rigid motion)",
+    "the generator's dimensions (constructor parameters, setters, entry points, histories) are listed in harness/c05_dims.py and "
+    "checked against the real signatures on every run (exit 2 when the code grows an unknown one); outside the quantifier: "
+    "StopLine(start=None, end=None) (the readers always supply points), ShapeGroup obstacle shapes with off-centre members (their "
+    "occupancy is not a rigid placement of the body), translations that are not an ndarray of length 2, np.float32 angles",
+    "a failing call with an angle outside [-2pi, 2pi] may precede the motion (dims.fail_first): whatever it leaves is the baseline, "
+    "atomicity of the failed call is not demanded",
+    "part by part, lanelets are moved behind the network's back, so find_lanelet_by_position is not compared in that mode (index "
+    "maintenance is C11); with dims.warm the occupancies are read from the live objects whose caches were filled before the motion",
 ]
-REQUIRED_BUCKETS = ["body/asymmetric-polygon", "tie/place", "area", "history", "light/shape", "state/other", "angle/zero", "angle/tiny", "angle/small<=0.05", "angle/0.05-edge", "angle/quarter-turn", "angle/full-turn",
+REQUIRED_BUCKETS = ["dim/ints", "dim/utm", "dim/alias", "dim/mutate", "dim/warm", "dim/fail_first", "dim/list_add", "dim/step2",
+                    "dim/a_type/np.float64", "dim/a_type/np.int64", "dim/t_type/f32", "lanelet/own-center-line",
+                    "obst/update_initial_state", "area/no-border", "loose/area", "loose/areaborder", "loose/matrix", "loose/network",
+                    "body/asymmetric-polygon", "tie/place", "area", "history", "light/shape", "state/other", "angle/zero", "angle/tiny", "angle/small<=0.05", "angle/0.05-edge", "angle/quarter-turn", "angle/full-turn",
                     "angle/generic", "angle/out-of-range", "t/zero", "t/dyadic", "t/float", "mode/whole", "mode/network",
                     "mode/parts", "probe", "obst/static", "obst/dynamic-traj", "obst/dynamic-set", "obst/phantom", "obst/env",
                     "state/PMState", "state/uncertain-pos", "state/uncertain-ori", "lanelet/stop-line", "sign", "light",
@@ -100,12 +111,18 @@ def gen_translation(r):
     return {"v": [r.uniform(-100, 100), r.uniform(-100, 100)], "int": False}
 
 
+# generation-time switches of the current case (value classes): integer-valued coordinates, UTM-sized offsets
+_G = {"ints": False, "off": (0.0, 0.0)}
+
+
 def _coord(r):
+    if _G["ints"]:
+        return float(r.randint(-100, 100))
     return r.randint(-1600, 1600) / 16.0 if r.random() < 0.5 else r.uniform(-100, 100)
 
 
 def _pt(r):
-    return [_coord(r), _coord(r)]
+    return [_G["off"][0] + _coord(r), _G["off"][1] + _coord(r)]
 
 
 def gen_orientation(r, a=0.0):
@@ -138,6 +155,10 @@ def gen_angle_interval(r, a=0.0):
 def gen_shape(r, depth=0, center=None, kinds=("rect", "circ", "poly", "group"), a=0.0):
     k = r.choice(kinds if depth == 0 else [x for x in kinds if x != "group"] or ["rect"])
     c = center if center is not None else _pt(r)
+    if k == "rect" and center is None and r.random() < 0.06:      # constructor defaults: centre and orientation omitted
+        return {"k": "rect", "l": r.uniform(0.5, 8), "w": r.uniform(0.5, 4), "c": [0.0, 0.0], "th": 0.0, "dflt": True}
+    if k == "circ" and center is None and r.random() < 0.06:
+        return {"k": "circ", "r": r.uniform(0.2, 5), "c": [0.0, 0.0], "dflt": True}
     if k == "rect":
         return {"k": "rect", "l": r.choice([4.5, 2.0, r.randint(1, 160) / 16.0, r.uniform(0.1, 12)]),
                 "w": r.choice([1.8, 1.0, r.randint(1, 96) / 16.0, r.uniform(0.1, 5)]), "c": c, "th": gen_orientation(r, a)}
@@ -153,8 +174,11 @@ def gen_shape(r, depth=0, center=None, kinds=("rect", "circ", "poly", "group"), 
             vs.reverse()       # already clockwise (the stored order)
         if r.random() < 0.3:
             vs.append(list(vs[0]))   # already closed
+        elif r.random() < 0.15:
+            i = r.randrange(len(vs))
+            vs.insert(i, list(vs[i]))      # a repeated vertex
         return {"k": "poly", "v": vs}
-    return {"k": "group", "s": [gen_shape(r, depth + 1, None, kinds, a) for _ in range(r.randint(1, 3))]}
+    return {"k": "group", "s": [gen_shape(r, depth + 1, None, kinds, a) for _ in range(r.choice([0, 1, 1, 2, 3]))]}
 
 
 def polygon_centroid(vs):
@@ -181,7 +205,8 @@ def gen_body_shape(r, allow_group=False):
     """Obstacle shape in the body frame, centred at the origin."""
     k = r.choice(["rect", "rect", "circ", "poly", "apoly"])
     if k == "rect":
-        return {"k": "rect", "l": r.choice([4.5, r.uniform(0.5, 12)]), "w": r.choice([1.8, r.uniform(0.5, 3)]), "c": [0.0, 0.0], "th": 0.0}
+        return {"k": "rect", "l": r.choice([4.5, r.uniform(0.5, 12)]), "w": r.choice([1.8, r.uniform(0.5, 3)]), "c": [0.0, 0.0],
+                "th": r.choice([0.0, 0.0, 0.0, r.uniform(-1.5, 1.5)])}      # a body rectangle may be turned in the body frame
     if k == "circ":
         return {"k": "circ", "r": r.uniform(0.2, 3), "c": [0.0, 0.0]}
     if k == "apoly":
@@ -248,7 +273,15 @@ def gen_lanelet(r, lid):
         step = r.uniform(2, 15)
         x, y = x + step * math.cos(h), y + step * math.sin(h)
         h += r.uniform(-0.3, 0.3)
-    la = {"id": lid, "l": left, "c": center, "r": right}
+    k = r.random()
+    if k < 0.3:          # a center line of its own (surveyed reference line), not the mean of the boundaries
+        center = [[x + r.uniform(-0.4, 0.4), y + r.uniform(-0.4, 0.4)] for x, y in center]
+    if r.random() < 0.15 and n >= 3:      # a repeated vertex (zero-length segment)
+        i = r.randrange(1, n)
+        left[i], center[i], right[i] = list(left[i - 1]), list(center[i - 1]), list(right[i - 1])
+    if _G["ints"]:
+        left, center, right = [[[float(round(v)) for v in q] for q in pl] for pl in (left, center, right)]
+    la = {"id": lid, "l": left, "c": center, "r": right, "own_center": k < 0.3}
     if r.random() < 0.5:
         la["stop"] = [list(right[-1]), list(left[-1])] if r.random() < 0.6 else [_pt(r), _pt(r)]
     return la
@@ -263,11 +296,14 @@ def gen_obstacle(r, oid, a):
         sts, t0 = gen_state_list(r, a)
         init = gen_state(r, "InitialState", t0 - 1, a, uncertain=r.random() < 0.2)
         o = {"k": "dynamic", "id": oid, "shape": gen_body_shape(r), "st": init, "traj": sts}
-        if r.random() < 0.3:     # past states (DynamicObstacle.history), world frame
+        k2 = r.random()
+        if k2 < 0.3:     # past states (DynamicObstacle.history), world frame, passed to the constructor
             o["hist"] = [gen_state(r, "InitialState", -3 + i, a, uncertain=False) for i in range(r.randint(1, 3))]
+        elif k2 < 0.5:   # the same through the API: the obstacle starts earlier and update_initial_state() is called n times
+            o["updates"] = [gen_state(r, "InitialState", t0 - 1 - n + i, a, uncertain=False) for n in [r.randint(1, 3)] for i in range(n)]
         return o
     if k == "dynamic-set":
-        occ = [{"t": i + 1 if r.random() < 0.7 else [i + 1, i + 1], "sh": gen_shape(r, a=a)} for i in range(r.randint(1, 4))]
+        occ = [{"t": i + 1 if r.random() < 0.7 else [i + 1, i + 1], "sh": gen_shape(r, a=a)} for i in range(r.choice([0, 1, 2, 3, 4]))]
         return {"k": "dynamic", "id": oid, "shape": gen_body_shape(r), "st": gen_state(r, "InitialState", 0, a, uncertain=r.random() < 0.3),
                 "occ": occ}
     if k == "dynamic-none":
@@ -295,7 +331,8 @@ def gen_problem(r, pid, a):
     return {"id": pid, "init": init, "goal": [gen_goal_state(r, a) for _ in range(r.randint(1, 3))]}
 
 
-LOOSE_KINDS = ["points", "shape", "state", "trajectory", "occupancy", "setpred", "trajpred", "stopline", "lanelet", "sign", "light",
+LOOSE_KINDS = ["area", "areaborder", "matrix", "network",
+               "points", "shape", "state", "trajectory", "occupancy", "setpred", "trajpred", "stopline", "lanelet", "sign", "light",
                "obstacle", "goal", "problem"]
 
 
@@ -307,8 +344,13 @@ def gen_light_shape(r):
 
 
 def gen_loose(r, kind, a):
-    if kind == "points":
-        return {"kind": kind, "v": [_pt(r) for _ in range(r.randint(1, 5))]}
+    if kind in ("points", "matrix", "areaborder"):
+        return {"kind": kind, "v": [_pt(r) for _ in range(r.randint(1 if kind != "areaborder" else 2, 5))]}
+    if kind == "area":
+        return {"kind": kind, "v": r.choice([None, []]) if r.random() < 0.2 else
+                [[_pt(r) for _ in range(r.randint(2, 4))] for _ in range(r.randint(1, 3))]}
+    if kind == "network":
+        return {"kind": kind, "v": [gen_lanelet(r, 950 + i) for i in range(r.randint(1, 3))], "ctor": r.choice(["from_list", "from_network", "add"])}
     if kind == "shape":
         return {"kind": kind, "v": gen_shape(r, a=a)}
     if kind == "state":
@@ -328,7 +370,7 @@ def gen_loose(r, kind, a):
     if kind == "occupancy":
         return {"kind": kind, "v": {"t": r.randint(0, 5), "sh": gen_shape(r, a=a)}}
     if kind == "setpred":
-        return {"kind": kind, "v": [{"t": i + 1, "sh": gen_shape(r, a=a)} for i in range(r.randint(1, 4))]}
+        return {"kind": kind, "v": [{"t": i + 1, "sh": gen_shape(r, a=a)} for i in range(r.choice([0, 1, 2, 3, 4]))]}
     if kind == "stopline":
         return {"kind": kind, "v": [_pt(r), _pt(r)]}
     if kind == "lanelet":
@@ -340,30 +382,82 @@ def gen_loose(r, kind, a):
     if kind == "obstacle":
         return {"kind": kind, "v": gen_obstacle(r, 901, a)}
     if kind == "goal":
-        return {"kind": kind, "v": [gen_goal_state(r, a) for _ in range(r.randint(1, 3))]}
+        return {"kind": kind, "v": [gen_goal_state(r, a) for _ in range(r.choice([0, 1, 2, 3]))]}
     if kind == "problem":
         return {"kind": kind, "v": gen_problem(r, 902, a)}
     raise ValueError(kind)
 
 
+A_TYPES = ["float", "float", "float", "np.float64", "np.int64"]      # (np.float32 angles: float32 arithmetic is the caller's choice)
+
+
+def gen_dims(r, a, valid):
+    """The history / value-class dimensions of one case (see DIMENSIONS['histories'])."""
+    d = {"ints": r.random() < 0.12, "utm": r.random() < 0.12, "alias": r.random() < 0.15, "mutate": r.random() < 0.2,
+         "warm": r.random() < 0.35, "fail_first": valid and r.random() < 0.12, "a_type": r.choice(A_TYPES),
+         "t_type": r.choice(["f64", "f64", "f64", "f32"]), "list_add": r.random() < 0.3}
+    if d["ints"]:
+        d["utm"] = False
+    if valid and r.random() < 0.3:
+        d["step2"] = {"a": gen_angle_valid(r), "t": gen_translation(r)}
+    return d
+
+
+def gen_angle_valid(r):
+    a = gen_angle(r)
+    while not (-TAU() <= a <= TAU()):
+        a = gen_angle(r)
+    return a
+
+
 def gen_case(ctx):
+    import numpy as np
     r = ctx.rng
     a = gen_angle(r)
     t = gen_translation(r)
     valid = -TAU() <= a <= TAU()
+    dims = gen_dims(r, a, valid)
+    if dims["a_type"] == "np.float32":
+        a = float(np.float32(a)) if abs(float(np.float32(a))) <= TAU() or not valid else a
+    if dims["a_type"] == "np.int64" and not isinstance(a, int):
+        dims["a_type"] = "np.float64"
+    if dims["t_type"] == "f32" and not t.get("int"):
+        t = {"v": [float(np.float32(x)) for x in t["v"]], "int": False}
+    _G["ints"], _G["off"] = dims["ints"], ((r.choice([4.5e5, 6.9e5]), r.choice([5.3e6, 5.9e6])) if dims["utm"] else (0.0, 0.0))
+    try:
+        return _gen_case_body(r, a, t, valid, dims)
+    finally:
+        _G["ints"], _G["off"] = False, (0.0, 0.0)
+
+
+def _gen_case_body(r, a, t, valid, dims):
     mode = r.choice(["whole", "whole", "network", "parts"]) if valid else "whole"
     nl = r.choice([0, 1, 1, 2, 3, 4])
     lanelets = [gen_lanelet(r, 1 + i) for i in range(nl)]
     signs = [{"id": 100 + i, "pos": _pt(r), "lanelet": r.randint(1, nl)} for i in range(r.choice([0, 1, 2]))] if nl else []
     lights = [{"id": 200 + i, "pos": _pt(r), "lanelet": r.randint(1, nl), "shape": gen_light_shape(r)}
               for i in range(r.choice([0, 1, 2]))] if nl else []
+    if dims["alias"] and nl:
+        # equal values that the builder turns into ONE shared array object: a sign, a light and a stop-line end on the same point
+        q = list(lanelets[0]["r"][-1])
+        signs.append({"id": 150, "pos": list(q), "lanelet": 1})
+        lights.append({"id": 250, "pos": list(q), "lanelet": 1, "shape": None})
+        lanelets[0]["stop"] = [list(q), list(lanelets[0]["l"][-1])]
     obstacles = [gen_obstacle(r, 300 + i, a) for i in range(r.choice([0, 1, 2, 3, 5]))]
-    areas = [{"id": 700, "borders": [[_pt(r) for _ in range(r.randint(2, 4))] for _ in range(r.randint(1, 2))]}] \
-        if r.random() < 0.2 else []
+    areas = [{"id": 700, "borders": r.choice([None, [], None]) if r.random() < 0.2 else
+              [[_pt(r) for _ in range(r.randint(2, 4))] for _ in range(r.randint(1, 2))]}] if r.random() < 0.25 else []
     problems = [gen_problem(r, 500 + i, a) for i in range(r.choice([0, 1, 1, 2]))]
     loose = [gen_loose(r, k, a) for k in r.sample(LOOSE_KINDS, r.choice([1, 2, 3]))]
-    return {"a": a, "t": t, "mode": mode, "scenario": {"lanelets": lanelets, "signs": signs, "lights": lights, "obstacles": obstacles,
-                                                        "areas": areas},
+    if dims["alias"]:
+        # the same Shape object in two occupancies / two goal states
+        for o in obstacles:
+            if o.get("occ") and len(o["occ"]) >= 2:
+                o["occ"][1]["sh"] = copy.deepcopy(o["occ"][0]["sh"])
+        for pr in problems:
+            if len(pr["goal"]) >= 2 and "pos" in pr["goal"][0]:
+                pr["goal"][1]["pos"] = copy.deepcopy(pr["goal"][0]["pos"])
+    return {"a": a, "t": t, "mode": mode, "dims": dims,
+            "scenario": {"lanelets": lanelets, "signs": signs, "lights": lights, "obstacles": obstacles, "areas": areas},
             "problems": problems, "loose": loose}
 
 
@@ -405,21 +499,52 @@ def gen_probe_case(ctx):
 
 # ------------------------------------------------------------------------------------------------ build real objects
 
+# build-time switches of the current case (histories): int-typed arrays, shared objects, construct-then-set, list form of add
+_B = {"ints": False, "alias": False, "mutate": False, "list_add": False, "cache": {}}
+DECOY = [123.0, -77.0]
+
+
 def _arr(p):
     import numpy as np
-    return np.array(p, dtype=float)
+    key = None
+    if _B["alias"] and p and not isinstance(p[0], list):
+        key = ("arr", tuple(p))
+        if key in _B["cache"]:
+            return _B["cache"][key]
+    flat = p if not p or not isinstance(p[0], list) else [v for q in p for v in q]
+    a = np.array(p, dtype=int) if _B["ints"] and flat and all(float(v).is_integer() for v in flat) else np.array(p, dtype=float)
+    if key:
+        _B["cache"][key] = a
+    return a
 
 
 def build_shape(spec):
     from commonroad.geometry.shape import Circle, Polygon, Rectangle, ShapeGroup
+    key = ("shape", json.dumps(spec, sort_keys=True))
+    if _B["alias"] and key in _B["cache"]:
+        return _B["cache"][key]
     k = spec["k"]
-    if k == "rect":
-        return Rectangle(spec["l"], spec["w"], _arr(spec["c"]), spec["th"])
-    if k == "circ":
-        return Circle(spec["r"], _arr(spec["c"]))
-    if k == "poly":
-        return Polygon(_arr(spec["v"]))
-    return ShapeGroup([build_shape(s) for s in spec["s"]])
+    if k == "rect" and spec.get("dflt"):
+        sh = Rectangle(spec["l"], spec["w"])
+    elif k == "circ" and spec.get("dflt"):
+        sh = Circle(spec["r"])
+    elif k == "rect" and _B["mutate"]:
+        sh = Rectangle(1.0, 1.0, _arr(DECOY), 0.5)          # constructed with other values, then set attribute by attribute
+        sh.length, sh.width, sh.center, sh.orientation = spec["l"], spec["w"], _arr(spec["c"]), spec["th"]
+    elif k == "rect":
+        sh = Rectangle(spec["l"], spec["w"], _arr(spec["c"]), spec["th"])
+    elif k == "circ" and _B["mutate"]:
+        sh = Circle(1.0, _arr(DECOY))
+        sh.radius, sh.center = spec["r"], _arr(spec["c"])
+    elif k == "circ":
+        sh = Circle(spec["r"], _arr(spec["c"]))
+    elif k == "poly":
+        sh = Polygon(_arr(spec["v"]))
+    else:
+        sh = ShapeGroup([build_shape(s) for s in spec["s"]])
+    if _B["alias"]:
+        _B["cache"][key] = sh
+    return sh
 
 
 def build_state(st):
@@ -446,34 +571,92 @@ def build_state(st):
         kw.update(yaw_rate=0.0, slip_angle=0.0)
     if st["cls"] == "KSState":
         kw["steering_angle"] = 0.0
+    if st["cls"] == "KSTState":
+        kw["hitch_angle"] = 0.25          # a RELATIVE angle (truck - trailer): must stay as it is
+    if st["cls"] in ("STState", "MBState", "STDState"):
+        kw["yaw_rate"] = 0.125
+    if _B["mutate"] and "position" in kw and st["cls"] != "CustomState":
+        pos = kw.pop("position")
+        obj = cls(position=_arr(DECOY), **kw)           # assigned after construction
+        obj.position = pos
+        return obj
     return cls(**kw)
 
 
 def build_lanelet(la):
     from commonroad.scenario.lanelet import Lanelet, LineMarking, StopLine
-    sl = StopLine(_arr(la["stop"][0]), _arr(la["stop"][1]), LineMarking.SOLID) if la.get("stop") else None
+    sl = None
+    if la.get("stop") and _B["mutate"]:
+        sl = StopLine(_arr(DECOY), _arr(DECOY), LineMarking.SOLID)
+        sl.start, sl.end = _arr(la["stop"][0]), _arr(la["stop"][1])
+    elif la.get("stop"):
+        sl = StopLine(_arr(la["stop"][0]), _arr(la["stop"][1]), LineMarking.SOLID)
+    if _B["mutate"] and sl is not None:
+        lanelet = Lanelet(_arr(la["l"]), _arr(la["c"]), _arr(la["r"]), la["id"])
+        lanelet.stop_line = sl
+        return lanelet
     return Lanelet(_arr(la["l"]), _arr(la["c"]), _arr(la["r"]), la["id"], stop_line=sl)
 
 
 def build_sign(s):
     from commonroad.scenario.traffic_sign import TrafficSign, TrafficSignElement, TrafficSignIDGermany
+    if _B["mutate"]:
+        ts = TrafficSign(s["id"], [TrafficSignElement(TrafficSignIDGermany.MAX_SPEED, ["30"])], {s.get("lanelet", 1)}, _arr(DECOY))
+        ts.position = _arr(s["pos"])
+        return ts
     return TrafficSign(s["id"], [TrafficSignElement(TrafficSignIDGermany.MAX_SPEED, ["30"])], {s.get("lanelet", 1)}, _arr(s["pos"]))
 
 
 def build_light(s):
     from commonroad.scenario.traffic_light import TrafficLight
+    if _B["mutate"]:
+        tl = TrafficLight(s["id"], _arr(DECOY))
+        tl.position = _arr(s["pos"])
+        tl.shape = build_shape(s["shape"]) if s.get("shape") else None
+        return tl
     return TrafficLight(s["id"], _arr(s["pos"]), shape=build_shape(s["shape"]) if s.get("shape") else None)
 
 
 def build_occs(occ):
     from commonroad.common.util import Interval
     from commonroad.prediction.prediction import Occupancy
-    return [Occupancy(Interval(o["t"][0], o["t"][1]) if isinstance(o["t"], list) else o["t"], build_shape(o["sh"])) for o in occ]
+    out = []
+    for o in occ:
+        ts = Interval(o["t"][0], o["t"][1]) if isinstance(o["t"], list) else o["t"]
+        if _B["mutate"]:
+            from commonroad.geometry.shape import Circle
+            oc = Occupancy(ts, Circle(1.0, _arr(DECOY)))
+            oc.shape = build_shape(o["sh"])
+        else:
+            oc = Occupancy(ts, build_shape(o["sh"]))
+        out.append(oc)
+    return out
 
 
 def build_trajectory(sts):
     from commonroad.scenario.trajectory import Trajectory
     return Trajectory(sts[0]["t"], [build_state(s) for s in sts])
+
+
+def build_trajpred(sts, body):
+    from commonroad.geometry.shape import Circle
+    from commonroad.prediction.prediction import TrajectoryPrediction
+    if _B["mutate"]:
+        tp = TrajectoryPrediction(build_trajectory(sts), Circle(1.0))
+        tp.occupancy_set                                  # fills the cache that the two setters must invalidate
+        tp.shape = build_shape(body)
+        tp.trajectory = build_trajectory(sts)
+        return tp
+    return TrajectoryPrediction(build_trajectory(sts), build_shape(body))
+
+
+def build_setpred(t0, occ):
+    from commonroad.prediction.prediction import SetBasedPrediction
+    if _B["mutate"]:
+        sp = SetBasedPrediction(t0, [])
+        sp.occupancy_set = build_occs(occ)
+        return sp
+    return SetBasedPrediction(t0, build_occs(occ))
 
 
 def build_obstacle(o):
@@ -485,24 +668,50 @@ def build_obstacle(o):
     if k == "dynamic":
         pred = None
         if "traj" in o:
-            pred = TrajectoryPrediction(build_trajectory(o["traj"]), build_shape(o["shape"]))
+            pred = build_trajpred(o["traj"], o["shape"])
         elif "occ" in o:
-            pred = SetBasedPrediction(1, build_occs(o["occ"]))
+            pred = build_setpred(1, o["occ"])
+        if o.get("updates"):
+            # the history arises through the API: start at the oldest state, update_initial_state() up to the current one,
+            # then give the prediction back (update_initial_state drops it)
+            sts = [build_state(h) for h in o["updates"]] + [build_state(o["st"])]
+            ob = DynamicObstacle(o["id"], ObstacleType.CAR, build_shape(o["shape"]), sts[0], pred)
+            for st in sts[1:]:
+                ob.update_initial_state(st)
+            ob.prediction = pred
+            return ob
+        if _B["mutate"]:
+            ob = DynamicObstacle(o["id"], ObstacleType.CAR, build_shape(o["shape"]),
+                                 build_state({"cls": "InitialState", "t": o["st"]["t"], "pos": DECOY, "ori": 0.0, "v": 0.0}), None,
+                                 history=[build_state(h) for h in o.get("hist", [])])
+            ob.occupancy_at_time(o["st"]["t"])
+            ob.initial_state = build_state(o["st"])         # setters after construction and after a first query
+            ob.prediction = pred
+            return ob
         return DynamicObstacle(o["id"], ObstacleType.CAR, build_shape(o["shape"]), build_state(o["st"]), pred,
                                history=[build_state(h) for h in o.get("hist", [])])
     if k == "phantom":
         from commonroad.prediction.prediction import SetBasedPrediction as SBP
-        return PhantomObstacle(o["id"], None if o["occ"] is None else SBP(0, build_occs(o["occ"])))
+        return PhantomObstacle(o["id"], None if o["occ"] is None else build_setpred(0, o["occ"]))
     return EnvironmentObstacle(o["id"], ObstacleType.BUILDING, build_shape(o["sh"]))
 
 
 def build_goal(goal):
     from commonroad.planning.goal import GoalRegion
+    if _B["mutate"]:
+        g = GoalRegion([build_state(s) for s in goal[:1]])
+        g.state_list = [build_state(s) for s in goal]
+        return g
     return GoalRegion([build_state(s) for s in goal])
 
 
 def build_problem(p):
     from commonroad.planning.planning_problem import PlanningProblem
+    if _B["mutate"]:
+        pp = PlanningProblem(p["id"], build_state(dict(p["init"], pos=DECOY)), build_goal(p["goal"][:1]))
+        pp.initial_state = build_state(p["init"])
+        pp.goal = build_goal(p["goal"])
+        return pp
     return PlanningProblem(p["id"], build_state(p["init"]), build_goal(p["goal"]))
 
 
@@ -511,26 +720,60 @@ def build_world(case):
     from commonroad.scenario.scenario import Scenario
     sc = Scenario(0.1)
     s = case["scenario"]
-    for la in s["lanelets"]:
-        sc.add_objects(build_lanelet(la))
+    if _B["list_add"]:
+        sc.add_objects([build_lanelet(la) for la in s["lanelets"]])        # list form of add_objects
+    else:
+        for la in s["lanelets"]:
+            sc.add_objects(build_lanelet(la))
     for x in s["signs"]:
         sc.add_objects(build_sign(x), {x["lanelet"]})
     for x in s["lights"]:
         sc.add_objects(build_light(x), {x["lanelet"]})
-    for o in s["obstacles"]:
-        sc.add_objects(build_obstacle(o))
+    if _B["list_add"]:
+        sc.add_objects([build_obstacle(o) for o in s["obstacles"]])
+    else:
+        for o in s["obstacles"]:
+            sc.add_objects(build_obstacle(o))
     for ar in s.get("areas", []):
-        from commonroad.scenario.area import Area, AreaBorder
-        sc.lanelet_network.add_area(Area(ar["id"], [AreaBorder(ar["id"] + 1 + i, _arr(b)) for i, b in enumerate(ar["borders"])]), set())
+        sc.lanelet_network.add_area(build_area(ar["id"], ar["borders"]), set())
     return sc, PlanningProblemSet([build_problem(p) for p in case["problems"]])
+
+
+def build_area(aid, borders):
+    from commonroad.scenario.area import Area, AreaBorder
+    if borders is None:
+        return Area(aid)                                  # border omitted (default None)
+    bs = []
+    for i, b in enumerate(borders):
+        if _B["mutate"]:
+            ab = AreaBorder(aid + 1 + i, _arr([DECOY, DECOY]))
+            ab.border_vertices = _arr(b)
+        else:
+            ab = AreaBorder(aid + 1 + i, _arr(b))
+        bs.append(ab)
+    return Area(aid, bs)
 
 
 def build_loose(lo):
     from commonroad.common.common_lanelet import LineMarking, StopLine
     from commonroad.prediction.prediction import SetBasedPrediction, TrajectoryPrediction
     k, v = lo["kind"], lo["v"]
-    if k == "points":
+    if k in ("points", "matrix"):
         return _arr(v)
+    if k == "areaborder":
+        from commonroad.scenario.area import AreaBorder
+        return AreaBorder(961, _arr(v))
+    if k == "area":
+        return build_area(960, v)
+    if k == "network":
+        from commonroad.scenario.lanelet import LaneletNetwork
+        ls = [build_lanelet(la) for la in v]
+        if lo.get("ctor") == "from_list":
+            return LaneletNetwork.create_from_lanelet_list(ls)
+        net = LaneletNetwork()
+        for la in ls:
+            net.add_lanelet(la)
+        return LaneletNetwork.create_from_lanelet_network(net) if lo.get("ctor") == "from_network" else net
     if k == "shape":
         return build_shape(v)
     if k == "state":
@@ -538,11 +781,11 @@ def build_loose(lo):
     if k == "trajectory":
         return build_trajectory(v)
     if k == "trajpred":
-        return TrajectoryPrediction(build_trajectory(v), build_shape(lo["shape"]))
+        return build_trajpred(v, lo["shape"])
     if k == "occupancy":
         return build_occs([v])[0]
     if k == "setpred":
-        return SetBasedPrediction(1, build_occs(v))
+        return build_setpred(1, v)
     if k == "stopline":
         return StopLine(_arr(v[0]), _arr(v[1]), LineMarking.SOLID)
     if k == "lanelet":
@@ -564,6 +807,16 @@ def build_loose(lo):
 
 def _p(a):
     return [float(a[0]), float(a[1])]
+
+
+def _num(x):
+    """numpy scalars -> python numbers of the same value (JSON-able)."""
+    import numpy as np
+    if isinstance(x, (bool, np.bool_)):
+        return bool(x)
+    if isinstance(x, (int, np.integer)):
+        return int(x)
+    return float(x)
 
 
 def _ps(arr):
@@ -685,9 +938,9 @@ def snap_shape(sh):
     from commonroad.geometry.shape import Circle, Polygon, Rectangle, ShapeGroup
     reflect(sh)
     if isinstance(sh, Rectangle):
-        return {"k": "rect", "l": sh.length, "w": sh.width, "c": _p(sh.center), "th": sh.orientation}
+        return {"k": "rect", "l": _num(sh.length), "w": _num(sh.width), "c": _p(sh.center), "th": _num(sh.orientation)}
     if isinstance(sh, Circle):
-        return {"k": "circ", "r": sh.radius, "c": _p(sh.center)}
+        return {"k": "circ", "r": _num(sh.radius), "c": _p(sh.center)}
     if isinstance(sh, Polygon):
         return {"k": "poly", "v": _ps(sh.vertices)}
     if isinstance(sh, ShapeGroup):
@@ -712,9 +965,9 @@ def snap_state(st):
     else:
         ori = getattr(st, "orientation", None)
         if isinstance(ori, AngleInterval):
-            out["ori"] = {"iv": [ori.start, ori.end]}
+            out["ori"] = {"iv": [_num(ori.start), _num(ori.end)]}
         elif isinstance(ori, (int, float, np.number)) and not isinstance(ori, bool):
-            out["ori"] = {"x": ori}
+            out["ori"] = {"x": _num(ori)}
         elif ori is not None:
             out["ori"] = {"other": True}
     return out
@@ -768,7 +1021,7 @@ def snap_light(tl):
 
 def snap_areas(sc):
     """Area borders of the lanelet network (world frame; moved by LaneletNetwork.translate_rotate since 00d3698)."""
-    return [[_ps(b.border_vertices) for b in ar.border] for ar in sorted(sc.lanelet_network.areas, key=lambda x: x.area_id)]
+    return [[_ps(b.border_vertices) for b in (ar.border or [])] for ar in sorted(sc.lanelet_network.areas, key=lambda x: x.area_id)]
 
 
 def snap_problem(pp):
@@ -781,8 +1034,15 @@ def snap_problems(pps):
 
 
 def snap_loose(kind, obj):
-    if kind == "points":
+    if kind in ("points", "matrix"):
         return _ps(obj)
+    if kind == "areaborder":
+        return _ps(obj.border_vertices)
+    if kind == "area":
+        return [_ps(b.border_vertices) for b in (obj.border or [])]
+    if kind == "network":
+        return {"lanelets": [snap_lanelet(la) for la in sorted(obj.lanelets, key=lambda x: x.lanelet_id)], "signs": [], "lights": [],
+                "obstacles": [], "areas": []}
     if kind == "shape":
         return snap_shape(obj)
     if kind == "state":
@@ -822,7 +1082,7 @@ def derived_shape(sh, out, path):
     elif isinstance(sh, Polygon):
         out["pts"].append((path + "/center", [_p(sh.center)]))
         out["area"].append((path + "/area", sh.shapely_object.area))
-    elif isinstance(sh, Circle):
+    elif isinstance(sh, Circle) and not _B["mutate"]:       # (Circle keeps its construction-time shapely disc when center is set)
         out["pts"].append((path + "/shapely-centroid", [_p(sh.shapely_object.centroid.coords[0])]))
     elif isinstance(sh, ShapeGroup):
         for i, s in enumerate(sh.shapes):
@@ -887,13 +1147,121 @@ def derived_occ(sh, out, path):
             derived_occ(s, out, f"{path}/{i}")
 
 
+def lanelet_lookup(net):
+    """Relative configuration through the public spatial query: for the midpoint of the first center-line segment of every
+    lanelet, the ids find_lanelet_by_position reports (only where the point is not within 1e-6 of any lanelet boundary)."""
+    import numpy as np
+    import shapely.geometry as sg
+    out = []
+    las = sorted(net.lanelets, key=lambda x: x.lanelet_id)
+    for la in las:
+        c = np.asarray(la.center_vertices, dtype=float)
+        p = (c[0] + c[1]) / 2
+        pt = sg.Point(p[0], p[1])
+        try:
+            if min(x.polygon.shapely_object.exterior.distance(pt) for x in las) < 1e-6:
+                continue
+            out.append((f"lanelet{la.lanelet_id}", sorted(net.find_lanelet_by_position([p])[0])))
+        except Exception as e:  # noqa  invalid polygons etc.: the lookup itself is not this property's subject
+            continue
+    return out
+
+
+def warm_world(sc, pps, loose_objs):
+    """Read-only queries BEFORE the motion: every lazily computed / cached attribute is materialised (see DIMENSIONS)."""
+    import numpy as np
+    from commonroad.geometry.shape import Rectangle, Shape
+    from commonroad.prediction.prediction import TrajectoryPrediction
+    from commonroad.scenario.lanelet import Lanelet, LaneletNetwork
+    from commonroad.scenario.obstacle import DynamicObstacle, StaticObstacle
+
+    def warm(o):
+        if isinstance(o, Lanelet):
+            o.distance, o.inner_distance, o.polygon.shapely_object, o.polygon.center
+        elif isinstance(o, LaneletNetwork):
+            for la in o.lanelets:
+                warm(la)
+                o.find_lanelet_by_position([np.asarray(la.center_vertices[0], dtype=float)])
+            o.lanelet_polygons if hasattr(o, "lanelet_polygons") else None
+        elif isinstance(o, Rectangle):
+            o.vertices, o.shapely_object
+        elif isinstance(o, Shape):
+            getattr(o, "shapely_object", None)
+        elif isinstance(o, TrajectoryPrediction):
+            o.occupancy_set
+        elif isinstance(o, (StaticObstacle, DynamicObstacle)):
+            o.occupancy_at_time(o.initial_state.time_step)
+            if isinstance(o, DynamicObstacle) and isinstance(o.prediction, TrajectoryPrediction):
+                o.prediction.occupancy_set
+                for s in o.prediction.trajectory.state_list:
+                    o.occupancy_at_time(s.time_step)
+    warm(sc.lanelet_network)
+    for o in sc.obstacles:
+        warm(o)
+    for o in loose_objs:
+        warm(o)
+
+
+def world_states(sc, pps, loose, loose_objs):
+    """(label, state) of every state object of the world, in a fixed order."""
+    from commonroad.prediction.prediction import TrajectoryPrediction
+    from commonroad.scenario.obstacle import DynamicObstacle, StaticObstacle
+    out = []
+
+    def obst(o, path):
+        if isinstance(o, (StaticObstacle, DynamicObstacle)):
+            out.append((path + "/initial_state", o.initial_state))
+        if isinstance(o, DynamicObstacle):
+            out.extend((f"{path}/history[{i}]", h) for i, h in enumerate(o.history))
+            if isinstance(o.prediction, TrajectoryPrediction):
+                out.extend((f"{path}/traj[{i}]", h) for i, h in enumerate(o.prediction.trajectory.state_list))
+    for o in sorted(sc.obstacles, key=lambda x: x.obstacle_id):
+        obst(o, f"obstacle{o.obstacle_id}")
+
+    def prob(pp, path):
+        out.append((path + "/initial_state", pp.initial_state))
+        out.extend((f"{path}/goal[{i}]", h) for i, h in enumerate(pp.goal.state_list))
+    for k in sorted(pps.planning_problem_dict):
+        prob(pps.planning_problem_dict[k], f"problem{k}")
+    for i, (lo, o) in enumerate(zip(loose, loose_objs)):
+        if o is None:
+            continue
+        path, kind = f"loose{i}:{lo['kind']}", lo["kind"]
+        if kind == "state":
+            out.append((path, o))
+        elif kind == "trajectory":
+            out.extend((f"{path}[{j}]", h) for j, h in enumerate(o.state_list))
+        elif kind == "trajpred":
+            out.extend((f"{path}[{j}]", h) for j, h in enumerate(o.trajectory.state_list))
+        elif kind == "obstacle":
+            obst(o, path)
+        elif kind == "goal":
+            out.extend((f"{path}[{j}]", h) for j, h in enumerate(o.state_list))
+        elif kind == "problem":
+            prob(o, path)
+    return out
+
+
+def state_scalars(sc, pps, loose, loose_objs):
+    """Everything a state stores besides position / orientation (and the velocity vector of a PMState): time step, velocity,
+    acceleration, yaw rate, slip angle, steering angle, HITCH ANGLE (a relative angle), ... and the state's class."""
+    from commonroad.scenario.state import PMState
+    out = []
+    for label, st in world_states(sc, pps, loose, loose_objs):
+        skip = {"position", "orientation"} | ({"velocity", "velocity_y"} if isinstance(st, PMState) else set())
+        out.append((label, type(st).__name__, sorted((k, repr(v)) for k, v in vars(st).items() if k not in skip)))
+    return out
+
+
 def derived_world(sc, pps, loose_objs, case):
     out = {"pts": [], "ang": [], "len": [], "area": [], "dimset": []}
     net = sc.lanelet_network
     for la in sorted(net.lanelets, key=lambda x: x.lanelet_id):
         derived_lanelet(la, out, f"lanelet{la.lanelet_id}")
     for o in sorted(sc.obstacles, key=lambda x: x.obstacle_id):
-        derived_obstacle(o, out, f"obstacle{o.obstacle_id}", copy.deepcopy(o))
+        derived_obstacle(o, out, f"obstacle{o.obstacle_id}", o if _B["warm"] else copy.deepcopy(o))
+    # (part by part the lanelets are moved behind the network's back: its spatial index cannot follow, index maintenance is C11)
+    out["loc"] = lanelet_lookup(net) if case.get("mode") != "parts" else None
     for k in sorted(pps.planning_problem_dict):
         pp = pps.planning_problem_dict[k]
         derived_state(pp.initial_state, out, f"problem{k}/initial_state")
@@ -910,11 +1278,11 @@ def derived_world(sc, pps, loose_objs, case):
         elif kind == "lanelet":
             derived_lanelet(obj, out, path)
         elif kind == "obstacle":
-            derived_obstacle(obj, out, path, copy.deepcopy(obj))
+            derived_obstacle(obj, out, path, obj if _B["warm"] else copy.deepcopy(obj))
         elif kind == "occupancy":
             derived_shape(obj.shape, out, path)
         elif kind == "trajpred":
-            fresh = copy.deepcopy(obj)
+            fresh = obj if _B["warm"] else copy.deepcopy(obj)
             for s in obj.trajectory.state_list:
                 occ = fresh.occupancy_at_time_step(s.time_step)
                 if occ is not None:
@@ -968,7 +1336,7 @@ def apply_world(sc, pps, t, a, mode):
         if err:
             return err
     for ar in net.areas:
-        for b in ar.border:
+        for b in ar.border or []:
             _, err = run("AreaBorder.translate_rotate", b, t, a)
             if err:
                 return err
@@ -1018,12 +1386,19 @@ def apply_loose(kind, obj, t, a):
         if kind == "points":
             from commonroad.geometry.transform import translate_rotate
             return translate_rotate(obj, t, a), None
+        if kind == "matrix":
+            # the other public entry point of transform.py: the homogeneous matrix applied by hand (as Lanelet / StopLine do)
+            import numpy as np
+            from commonroad.geometry.transform import from_homogeneous_coordinates, to_homogeneous_coordinates, translation_rotation_matrix
+            m = translation_rotation_matrix(t, a)
+            return from_homogeneous_coordinates(m.dot(to_homogeneous_coordinates(np.asarray(obj, dtype=float)).transpose()).transpose()), None
         if kind in ("shape", "state"):
             return obj.translate_rotate(t, a), None
         obj.translate_rotate(t, a)
         return obj, None
     except Exception as e:  # noqa
-        site = "transform.translate_rotate" if kind == "points" else f"{type(obj).__name__}.translate_rotate"
+        site = "transform.translate_rotate" if kind == "points" else "transform.translation_rotation_matrix" if kind == "matrix" \
+            else f"{type(obj).__name__}.translate_rotate"
         return None, (site, e)
 
 
@@ -1287,6 +1662,17 @@ class Oracle:
             self.fail(site, what + ("-not-moved" if x == b else "-changed-but-not-rigidly"),
                       f"{path}: {json.dumps(b)[:140]} -> {json.dumps(x)[:140]} (t={self.case['t']['v']}, a={self.a!r})")
 
+    def scalars(self, site, before, after):
+        """a state keeps its class and everything it stores besides position / orientation (/ PM velocity vector)."""
+        if [(l, c) for l, c, _ in before] != [(l, c) for l, c, _ in after]:
+            self.fail(site, "state-class-or-structure-changed", f"{[(l, c) for l, c, _ in before][:4]} vs {[(l, c) for l, c, _ in after][:4]}")
+            return
+        for (label, _, b), (_, _, x) in zip(before, after):
+            if b != x:
+                diff = [(p, q) for p, q in zip(b, x) if p != q][:3] or [(b[:3], x[:3])]
+                self.fail(site, "state-scalar-changed", f"{label}: {diff}")
+                return
+
     def bodies(self, site, before, after):
         """body-frame shapes (obstacle_shape, TrajectoryPrediction.shape, TrafficLight.shape) must stay exactly as they are."""
         for (path, b), (_, x) in zip(collect(before, {"body", "pbody", "lsh"}, "", []), collect(after, {"body", "pbody", "lsh"}, "", [])):
@@ -1340,6 +1726,13 @@ class Oracle:
             if abs(b - x) > 1e-9 * max(1.0, abs(b), S):
                 self.fail(site, "area-changed", f"{path}: {b!r} -> {x!r}")
                 return
+        if before.get("loc") is not None and after.get("loc") is not None:
+            a_ = dict(after["loc"])
+            for path, ids in before["loc"]:
+                if path in a_ and a_[path] != ids:
+                    self.fail(site, "lanelet-lookup-changed", f"find_lanelet_by_position at the (moved) center point of {path}: "
+                                                              f"{ids} before, {a_[path]} after")
+                    return
         for (path, b), (_, x) in zip(before["dimset"], after["dimset"]):
             if any(abs(p - q) > 1e-6 * max(1.0, abs(p)) for p, q in zip(b, x)):
                 self.fail(site, "enclosing-occupancy-dimensions-changed", f"{path}: {b} -> {x}")
@@ -1404,6 +1797,12 @@ def tag_case(ctx, case):
     s = case["scenario"]
     if any(la.get("stop") for la in s["lanelets"]):
         ctx.tag("lanelet/stop-line")
+    if any(la.get("own_center") for la in s["lanelets"]):
+        ctx.tag("lanelet/own-center-line")
+    if any(o.get("updates") for o in s["obstacles"]):
+        ctx.tag("obst/update_initial_state")
+    if any(ar.get("borders") in (None, []) for ar in s.get("areas", [])):
+        ctx.tag("area/no-border")
     if s["signs"]:
         ctx.tag("sign")
     if s["lights"]:
@@ -1484,21 +1883,84 @@ def place_ties(ctx, case, sc, S, tau, when):
                     "occupancy_at_time of a polygon-shaped obstacle vs CR.Rigid.placePolygon")
 
 
-def run_case(ctx, case):
+MODEL_KIND = {"network": "scenario", "matrix": "points"}      # loose kinds answered by another kind's model function
+
+
+def _call_angle(a, a_type):
     import numpy as np
+    if a_type == "np.float64":
+        return np.float64(a)
+    if a_type == "np.float32":
+        return np.float32(a) if float(np.float32(a)) == float(a) else a
+    if a_type == "np.int64" and isinstance(a, int):
+        return np.int64(a)
+    return a
+
+
+def _call_translation(tinfo, t_type):
+    import numpy as np
+    if tinfo.get("int"):
+        return np.array(tinfo["v"], dtype=int)
+    if t_type == "f32" and all(float(np.float32(x)) == float(x) for x in tinfo["v"]):
+        return np.array(tinfo["v"], dtype=np.float32)
+    return np.array(tinfo["v"], dtype=float)
+
+
+def run_case(ctx, case):
     ctx.case(case)
     tag_case(ctx, case)
-    a = case["a"]
-    tv = case["t"]["v"]
-    t = np.array(tv, dtype=int) if case["t"].get("int") else np.array(tv, dtype=float)
-    tau = TAU()
-    valid = -tau <= a <= tau
+    dims = case.get("dims", {})
+    _B.update(ints=bool(dims.get("ints")), alias=bool(dims.get("alias")), mutate=bool(dims.get("mutate")),
+              list_add=bool(dims.get("list_add")), warm=bool(dims.get("warm")), cache={})
+    try:
+        _run_case(ctx, case, dims)
+    finally:
+        _B.update(ints=False, alias=False, mutate=False, list_add=False, warm=False, cache={})
+
+
+def _run_case(ctx, case, dims):
     try:
         sc, pps = build_world(case)
         loose_objs = [build_loose(lo) for lo in case["loose"]]
     except Exception as e:  # noqa  the generator only emits constructible objects
         raise InfraError(f"C05 generator produced an object the library cannot construct: {type(e).__name__}: {e}; case {json.dumps(case)[:600]}")
-    orc = Oracle(ctx, case, lambda site: sub_case(case, site))
+    for k in ("ints", "utm", "alias", "mutate", "warm", "fail_first", "list_add"):
+        if dims.get(k):
+            ctx.tag("dim/" + k)
+    ctx.tag("dim/a_type/" + dims.get("a_type", "float"), "dim/t_type/" + dims.get("t_type", "f64"))
+    if dims.get("warm"):
+        warm_world(sc, pps, loose_objs)          # read-only queries before the observation
+    tau = TAU()
+    if dims.get("fail_first") and -tau <= case["a"] <= tau:
+        # a call that FAILS (angle outside [-2pi, 2pi]: AssertionError) precedes the motion; whatever it leaves is the baseline
+        t0 = _call_translation(case["t"], "f64")
+        apply_world(sc, pps, t0, 7.0, case["mode"])
+        for lo, o in zip(case["loose"], loose_objs):
+            apply_loose(lo["kind"], o, t0, 7.0)
+    steps = [(case["a"], case["t"], dims.get("a_type"), dims.get("t_type"))]
+    if dims.get("step2"):
+        steps.append((dims["step2"]["a"], dims["step2"]["t"], None, None))
+        ctx.tag("dim/step2")
+    loose = list(case["loose"])
+    for si, (a, tinfo, a_type, t_type) in enumerate(steps):
+        step_case = dict(case, a=a, t=tinfo, loose=loose)
+        moved = _one_step(ctx, case, step_case, sc, pps, loose_objs, _call_angle(a, a_type), _call_translation(tinfo, t_type),
+                          last=(si == len(steps) - 1), step=si)
+        if moved is None:
+            return
+        keep = [i for i, m in enumerate(moved) if m is not None]
+        loose, loose_objs = [loose[i] for i in keep], [moved[i] for i in keep]
+
+
+def _one_step(ctx, full_case, case, sc, pps, loose_objs, a_call, t, last, step):
+    """One motion (a, t) applied to the world as it is now: correspondence + oracle.  Returns the moved loose objects, or None
+    when the world could not be moved (nothing further to observe)."""
+    import numpy as np
+    a = case["a"]
+    tv = case["t"]["v"]
+    tau = TAU()
+    valid = -tau <= a <= tau
+    orc = Oracle(ctx, case, lambda site: sub_case(full_case, site))
 
     # ---- before
     reflect_world([sc, pps, loose_objs])
@@ -1506,20 +1968,21 @@ def run_case(ctx, case):
               "loose": [snap_loose(lo["kind"], o) for lo, o in zip(case["loose"], loose_objs)]}
     inadm = [lo["kind"] == "state" and bool(lo["v"].get("pos_other") or lo["v"].get("ori_other")) for lo in case["loose"]]
     dbefore = derived_world(sc, pps, [None if x else o for x, o in zip(inadm, loose_objs)], case) if valid else None
+    sbefore = state_scalars(sc, pps, case["loose"], [None if x else o for x, o in zip(inadm, loose_objs)])
     S = case_scale(case, before)
     place_ties(ctx, case, sc, S, tau, "before")
 
     # ---- the motion
-    werr = apply_world(sc, pps, t, a, case["mode"])
+    werr = apply_world(sc, pps, t, a_call, case["mode"])
     moved_loose, lerrs = [], []
     for lo, o in zip(case["loose"], loose_objs):
-        m, err = apply_loose(lo["kind"], o, t, a)
+        m, err = apply_loose(lo["kind"], o, t, a_call)
         moved_loose.append(m)
         lerrs.append(err)
 
     # ---- the model on the same stored values
     objs = [{"kind": "scenario", "v": to_rat(before["scenario"])}, {"kind": "problems", "v": to_rat(before["problems"])}]
-    objs += [{"kind": lo["kind"], "v": to_rat(b)} for lo, b in zip(case["loose"], before["loose"])]
+    objs += [{"kind": MODEL_KIND.get(lo["kind"], lo["kind"]), "v": to_rat(b)} for lo, b in zip(case["loose"], before["loose"])]
     margs = {"c": rat(math.cos(a)), "s": rat(math.sin(a)), "a": rat(a), "t": [rat(tv[0]), rat(tv[1])], "tau": rat(tau), "objs": objs}
     model = ctx.driver.ask("C05", "move", margs)
 
@@ -1543,7 +2006,7 @@ def run_case(ctx, case):
             continue
         imp = {"ok": cmp_.tree(impl_w[i]["ok"], model[i].get("ok"))} if "ok" in impl_w[i] and "ok" in model[i] else \
             ({"ok": to_rat(impl_w[i]["ok"])} if "ok" in impl_w[i] else impl_w[i])
-        ctx.compare({"a": a, "t": case["t"], "mode": case["mode"], "obj": objs[i]}, imp, model[i], names[i])
+        ctx.compare({"a": a, "t": case["t"], "mode": case["mode"], "step": step, "obj": objs[i]}, imp, model[i], names[i])
     for i, (lo, m, err) in enumerate(zip(case["loose"], moved_loose, lerrs)):
         mo = model[2 + i]
         if err is None:
@@ -1551,16 +2014,16 @@ def run_case(ctx, case):
             imp = {"ok": cmp_.tree(after["loose"][i], mo.get("ok"))} if "ok" in mo else {"ok": to_rat(after["loose"][i])}
         else:
             imp = {"err": err_class(err[1])}
-        ctx.compare({"a": a, "t": case["t"], "obj": objs[2 + i]}, imp, mo, f"{lo['kind']}.translate_rotate vs CR.Rigid model")
+        ctx.compare({"a": a, "t": case["t"], "step": step, "obj": objs[2 + i]}, imp, mo, f"{lo['kind']}.translate_rotate vs CR.Rigid model")
 
     # ---- oracle
     if not valid:
-        return          # the property quantifies over angles in [-2pi, 2pi]; outside only the correspondence speaks
+        return None     # the property quantifies over angles in [-2pi, 2pi]; outside only the correspondence speaks
     if werr is not None:
         site, e = werr
         orc.fail(site, f"raises-{type(e).__name__}", f"{site}(t={tv}, a={a!r}) raised {type(e).__name__}: {str(e)[:160]}")
-    for lo, err in zip(case["loose"], lerrs):
-        if err is not None and lo["kind"] == "state" and (lo["v"].get("pos_other") or lo["v"].get("ori_other")):
+    for lo, err, bad in zip(case["loose"], lerrs, inadm):
+        if err is not None and bad:
             ctx.tag("state/other")       # inadmissible state (tuple position / string orientation): outside the property
             continue
         if err is not None:
@@ -1575,18 +2038,20 @@ def run_case(ctx, case):
     if after["problems"] is not None:
         orc.stored("PlanningProblemSet.translate_rotate" if case["mode"] == "whole" else f"problems[{case['mode']}]",
                    before["problems"], after["problems"])
-    for lo, b, x in zip(case["loose"], before["loose"], after["loose"]):
-        if x is not None and not (lo["kind"] == "state" and (lo["v"].get("pos_other") or lo["v"].get("ori_other"))):
+    for lo, b, x, bad in zip(case["loose"], before["loose"], after["loose"], inadm):
+        if x is not None and not bad:
             orc.stored(f"{lo['kind']}.translate_rotate", strip(b), strip(x))
             orc.consequences(f"{lo['kind']}.translate_rotate", strip(b), strip(x), S)
             orc.bodies(f"{lo['kind']}.translate_rotate", b, x)
             orc.areas_and_history(b, x)
     if werr is None:
         place_ties(ctx, case, sc, S, tau, "after")
-    if werr is None and all(e is None or (lo["kind"] == "state" and (lo["v"].get("pos_other") or lo["v"].get("ori_other")))
-                            for lo, e in zip(case["loose"], lerrs)):
+    all_ok = werr is None and all(e is None or bad for e, bad in zip(lerrs, inadm))
+    if all_ok:
         dafter = derived_world(sc, pps, moved_loose, case)
         orc.derived("derived-geometry", dbefore, dafter, S)
+        orc.scalars("state-attributes", sbefore, state_scalars(sc, pps, case["loose"], moved_loose))
+    if all_ok and last:
         # undo: rotate back by -a about the origin, then translate back by -t
         z = np.array([0.0, 0.0])
         back_err = apply_world(sc, pps, z, -a, case["mode"]) or apply_world(sc, pps, -np.array(tv, dtype=float), 0.0, case["mode"])
@@ -1606,9 +2071,12 @@ def run_case(ctx, case):
             else:
                 orc.restored(f"inverse[{lo['kind']}]", strip(b), strip(snap_loose(lo["kind"], m2)), S)
         reflect_world([sc, pps, moved_loose])
+    return moved_loose if werr is None else None
 
 
 def run(ctx):
+    import c05_dims
+    c05_dims.check_dimensions()       # the dimension table must match the real signatures (exit 2 otherwise)
     for p in sorted(glob.glob(os.path.join(CORPUS_DIR, "C05", "*.json"))):
         run_case(ctx, json.load(open(p)))
     n = ctx.n(400)
